@@ -924,7 +924,7 @@ func main() {
 		ID: "C37", Model: "C37", Gen: gen, Impl: impl, Oracle: oracle,
 		Cases: func(th bool) int {
 			if th {
-				return 60000
+				return 20000
 			}
 			return 3000
 		},
